@@ -81,7 +81,7 @@ def build_stream(cfg, twin_noise_only=False, cls=None, seed=None):
     import setigen.voltage as sv
     rate = cfg['rate']
     _decoy_streams(rate)
-    s = sv.DataStream(sample_rate=rate, fch1=cfg['fch1'], ascending=_asc(cfg), t_start=cfg['t_start'],
+    s = sv.DataStream(sample_rate=_rate(cfg), fch1=cfg['fch1'], ascending=_asc(cfg), t_start=_t0(cfg),
                       seed=cfg['seed'] if seed is None else seed)
     add_sources(s, cfg, twin_noise_only)
     _shadow(s, rate)
@@ -96,6 +96,20 @@ def _asc(cfg):
     if form == 'int':
         return int(cfg['asc'])
     return cfg['asc']
+
+
+def _t0(cfg):
+    """The start time in the numeric form the caller holds it (sub-box): a single-precision scalar or a 0-d array of the same value."""
+    nf = cfg.get('nform')
+    if nf == 'f32time':
+        return np.float32(cfg['t_start'])
+    if nf == 'arr0time':
+        return np.array(float(cfg['t_start']))
+    return cfg['t_start']
+
+
+def _rate(cfg):
+    return np.float32(cfg['rate']) if cfg.get('nform') == 'f32rate' else cfg['rate']
 
 
 def _shadow(s, rate):
@@ -142,7 +156,10 @@ def add_sources(s, cfg, twin_noise_only=False):
             continue
         elif src[0] == 'chirp':
             # f_start inside the band: fch1 +/- frac*rate ; drift in units of rate^2
-            s.add_constant_signal(f_start=cfg['fch1'] + sgn * src[1] * rate, drift_rate=src[2] * rate,
+            f0 = cfg['fch1'] + sgn * src[1] * rate
+            if cfg.get('nform') == 'uintf' and float(f0).is_integer() and f0 >= 0:
+                f0 = np.uint32(f0)             # a whole-Hz start frequency held as an unsigned integer
+            s.add_constant_signal(f_start=f0, drift_rate=src[2] * rate,
                                   level=src[3], phase=src[4])
         elif src[0] == 'real':
             s.add_signal(_real_fn)
@@ -439,16 +456,16 @@ def case_antenna(cfg):
     pcfg = [cfg, dict(cfg, sources=cfg.get('y_sources', cfg['sources']))][:npol]
 
     def build():
-        a = sv.Antenna(sample_rate=cfg['rate'], fch1=cfg['fch1'], ascending=_asc(cfg), num_pols=npol,
-                       t_start=cfg['t_start'], seed=cfg['seed'])
+        a = sv.Antenna(sample_rate=_rate(cfg), fch1=cfg['fch1'], ascending=_asc(cfg), num_pols=npol,
+                       t_start=_t0(cfg), seed=cfg['seed'])
         for s, pc in zip(a.streams, pcfg):
             add_sources(s, pc)
             _shadow(s, cfg['rate'])
         return a
 
     def build_twins():
-        a = sv.Antenna(sample_rate=cfg['rate'], fch1=cfg['fch1'], ascending=_asc(cfg), num_pols=npol,
-                       t_start=cfg['t_start'], seed=cfg['seed'])
+        a = sv.Antenna(sample_rate=_rate(cfg), fch1=cfg['fch1'], ascending=_asc(cfg), num_pols=npol,
+                       t_start=_t0(cfg), seed=cfg['seed'])
         tw = []
         for s, pc in zip(a.streams, pcfg):
             add_sources(s, pc, twin_noise_only=True)
@@ -579,7 +596,10 @@ def run(ctx):
     # (sub-box) the orientation flag as a numpy bool / as 0, 1
     forms = [dict(c, asc_form=f) for c in cfgs if c['rate'] == 1e3 and c['t_start'] == 100.25 and c['seed'] == ctx.seed + 5
              and 'chirp' in c['sources'] for f in ('np', 'int')]
-    ctx.pmap(case_stream, cfgs + refuse + forms, chunk=1)
+    # (sub-box) start time / sample rate / start frequency in other numeric forms (values exactly representable in them)
+    nforms = [dict(c, nform=f) for c in cfgs if c['rate'] == 1e3 and c['t_start'] == 100.25 and c['seed'] == ctx.seed + 5
+              and c['sources'] in ('chirp', 'noise+chirp+real', 'two_chirps') for f in ('f32time', 'arr0time', 'f32rate', 'uintf')]
+    ctx.pmap(case_stream, cfgs + refuse + forms + nforms, chunk=1)
     ctx.pmap(case_compositions, [dict(c, N=N) for c in cfgs], chunk=2)
     ants = []
     for c in cfgs:
@@ -593,7 +613,9 @@ def run(ctx):
             ants.append(dict(c, npol=2, depth=depth, y_sources='noise'))
     ants += [dict(a, asc_form='np') for a in ants if a['rate'] == 1e3 and a['t_start'] == 100.25 and a['npol'] == 2 and 'y_sources' not in a
              and 'chirp' in a['sources']]
-    ants += [dict(a, refuse=True) for a in ants if 'asc_form' not in a and a['rate'] == 1e3 and a['t_start'] == 100.25 and a['npol'] == 2 and 'y_sources' not in a]
+    ants += [dict(a, nform=f) for a in ants if a['rate'] == 1e3 and a['t_start'] == 100.25 and a['npol'] == 2 and 'y_sources' not in a
+             and 'asc_form' not in a and a['sources'] == 'two_chirps' for f in ('f32time', 'arr0time', 'f32rate')]
+    ants += [dict(a, refuse=True) for a in ants if 'asc_form' not in a and 'nform' not in a and a['rate'] == 1e3 and a['t_start'] == 100.25 and a['npol'] == 2 and 'y_sources' not in a]
     ctx.pmap(case_antenna, ants, chunk=1)
     return ctx.finish(
         rule='per stream configuration (sample_rate x t_start x orientation x source set x seed): BFS over all operation '
